@@ -14,7 +14,7 @@ Entry(key, keyform, form, e) == [key |-> key, keyform |-> keyform, form |-> form
 
 ForA  == {<<>>, <<Entry("a", "ident", "lit", Lit(S(<<120>>)))>>, <<Entry("a", "ident", "expr", Ident("ua", FALSE, S(<<117>>)))>>,
           <<Entry("a", "ident", "shorthand", Ident("a", TRUE, S(<<115>>)))>>, <<Entry("a", "ident", "getter", Call("ga", S(<<103>>)))>>,
-          <<Entry("a", "computed_lit", "lit", Lit(S(<<99>>)))>>, <<Entry("a", "str", "expr", ArrLit(<<Lit(Num(1))>>))>>}
+          <<Entry("a", "computed_lit", "lit", Lit(S(<<99>>)))>>, <<Entry("a", "computed_lit", "getter", Call("ga2", S(<<104>>)))>>, <<Entry("a", "str", "expr", ArrLit(<<Lit(Num(1))>>))>>}
 ForB  == {<<>>, <<Entry("b", "ident", "lit", Lit(Num(7)))>>, <<Entry("b", "ident", "expr", Call("gb", Num(8)))>>}
 ForCb == {<<>>, <<Entry("cb", "ident", "fn", Lit(Num(1)))>>, <<Entry("cb", "ident", "method", Lit(Num(2)))>>,
           <<Entry("cb", "ident", "async_method", Lit(Num(3)))>>,
